@@ -12,13 +12,15 @@ PFAIL_ROUTE = [
     ("task handed to the pool did not run exactly once", "C01"),
     ("task-set task ran more than once", "C02"),
     ("task of a never-cancelled task set did not run", "C02"),
-    ("task-set wait returned", "C02"),
+    ("task-set wait returned", ("C02", "C05")),
     ("pool / task-set operation never returns while the pool is being resized", "C03"),
     ("pool / task-set operation never returns", "C02"),
     ("task stranded", "C03"),
     ("task scheduled after cancel() returned was executed", "C04"),
     ("more exceptions delivered", "C05"),
     ("captured exception never delivered", "C05"),
+    ("exception thrown by a task of the set was never delivered", "C05"),
+    ("task scheduled by a task that resize() itself ran", "C03"),
     ("pool pending-work counter not zero at quiescence", "C08"),
     ("ForceQueuingTag task ran on the scheduling caller", "C47"),
 ]
@@ -27,10 +29,12 @@ PFAIL_ROUTE = [
 EVENT_ROUTE = [
     (r"^T \d+ begin ", ("C01", "C02")),
     (r"^T \d+ h pool\.dtor\.end|^T \d+ ret pooldtor", ("C01",)),
-    (r"^T \d+ h pool\.count|^T \d+ h pool\.resize\.end|^T \d+ quiesce", ("C08",)),
+    (r"^T \d+ h pool\.resize\.end", ("C08", "C03")),
+    (r"^T \d+ h pool\.count|^T \d+ quiesce", ("C08",)),
     (r"^T \d+ h pool\.push\.ring", ("C01", "C02", "C03", "C08")),
     (r"^T \d+ h pool\.push|^T \d+ h pool\.take|^T \d+ ret sched|^T \d+ ret bulk|^T \d+ gen ", ("C01", "C02", "C08")),
-    (r"^T \d+ h ts\.zero|^T \d+ ret wait|^T \d+ h ts\.dec|^T \d+ h ts\.inc|^T \d+ end ", ("C02",)),
+    (r"^T \d+ h ts\.zero|^T \d+ ret wait", ("C02", "C05")),
+    (r"^T \d+ h ts\.dec|^T \d+ h ts\.inc|^T \d+ end ", ("C02",)),
     (r"^T \d+ h ts\.inline|^T \d+ h ts\.guard|^T \d+ ret cancel", ("C04",)),
     (r"^T \d+ h ts\.capture|^T \d+ h ts\.rethrow", ("C05",)),
     (r"^T \d+ h pool\.inline", ("C47",)),
@@ -41,8 +45,8 @@ EVENT_ROUTE = [
 def route_pfail(sig):
     for pre, pid in PFAIL_ROUTE:
         if sig.startswith(pre):
-            return pid
-    return "C01"
+            return pid if isinstance(pid, tuple) else (pid,)
+    return ("C01",)
 
 
 def route_event(line):
@@ -56,7 +60,10 @@ RULE = ("random programs on the real ThreadPool (0..3 threads, load multipliers 
         "0..2 extra producer threads: pool schedule / ForceQueuingTag / scheduleBulk, TaskSet and ConcurrentTaskSet "
         "(light and heavy cost, small load factors forcing the inline paths) single / force-queued / bulk / bulk "
         "force-queued submissions, nested submissions and nested task sets from task bodies, cancel(), throwing "
-        "bodies, wait / tryWait, concurrent resize() (incl. to zero) and setSignalingWake, pool destruction; run under "
+        "bodies (also after cancelling their own set), lingering bodies, kOn child sets created inside tasks, chains of tasks that "
+        "schedule their successor on an overloaded pool, workers parked between submissions (steal rings), wait / tryWait, "
+        "concurrent resize() (incl. to zero, incl. resize(0) held in join() while a ring-routed bulk arrives) and "
+        "setSignalingWake, pool destruction with and without prior quiescence; run under "
         "the deterministic scheduler (random and PCT schedules); every hook / call / body event is replayed through "
         "the Lean ledger model; distinct = (pool size, load, producers, resize, throwing, task-count buckets)")
 
@@ -91,11 +98,11 @@ def run_sched(ctx, replay, pid, module, theorems, flavours):
             res = vlib.trace_validate(ctx, "sched", exe, args)
             mine = {"ok": True, "pfails": [], "mismatches": [], "crashed": res["crashed"], "rc": res["rc"], "tail": res["tail"]}
             for sig, det in res["pfails"]:
-                if route_pfail(sig) == pid:
+                if pid in route_pfail(sig):
                     mine["pfails"].append((sig, det))
                 else:
                     ctx.notes.setdefault("failures_routed_to_other_properties", {})
-                    k = route_pfail(sig) + ": " + sig
+                    k = "/".join(route_pfail(sig)) + ": " + sig
                     ctx.notes["failures_routed_to_other_properties"][k] = ctx.notes["failures_routed_to_other_properties"].get(k, 0) + 1
             for m in res["mismatches"]:
                 if pid in route_event(m["line"]):
